@@ -218,7 +218,13 @@ def unsettled(lines, version, vlevel):
 def gen_case(rng, i):
     version = 'gfa1' if i % 2 else 'gfa2'
     vlevel = rng.choice([0, 1, 1, 2, 3])
-    if version == 'gfa1':
+    if i == 1:
+        # a hand-made GFA1 document: a circular path, a path over one segment, a hairpin, a loop, a containment, paths
+        # traversing a link in both directions
+        lines = ['H\tVN:Z:1.0', 'S\ta\tACGTACGT', 'S\tb\t*\tLN:i:8', 'S\tc\tACGT', 'L\ta\t+\tb\t-\t2M1D1M', 'L\tb\t-\ta\t+\t1M',
+                 'L\tb\t+\tb\t-\t*', 'L\tc\t+\tc\t+\t2M', 'C\ta\t+\tc\t-\t2\t4M', 'P\tpc\ta+,b-\t2M1D1M,1M', 'P\tp1\tc+\t*',
+                 'P\tpf\ta+,b-\t2M1D1M', 'P\tpr\tb+,a-\t1M1I2M', 'P\tpl\tc+,c+,c+\t2M,2M']
+    elif version == 'gfa1':
         lines, info = gen.gen_gfa1(rng)
     elif i % 3 == 0:
         # documents rich in ordered and unordered groups (edges in both orientations, nested groups, implicit elements)
